@@ -55,8 +55,12 @@ func directed(newState bool) []*Seq {
 		{NewState: newState, Engine: "memory", Ops: []Op{st(1, 3), st(2, 4), st(1, 4), st(2, 3), {K: "R"}, st(1, 3), {K: "N"}, {K: "R"}, st(2, 4)}},
 		// failed store, snapshot of the (uncommitted) in-memory filter, another block, ungraceful restart
 		{NewState: newState, Engine: "memory", Ops: []Op{st(1, 4), st(1, 4), st(2, 4), {K: "N"}, st(1, 3), {K: "U"}, st(1, 4)}},
-		// the window end: stores of 8190, 8191 (end), 8192, reverts back across it, re-stores
+		// the window end: stores of 8190, 8191 (end), 8192, reverts back across it, re-stores. This is the
+		// regression input of the former class revert-across-window:stale-persisted-window (fixed in /repo
+		// by 5440575): every crash image of it must be consistent and take the next block.
 		{NewState: newState, Engine: "memory", Boundary: true, Ops: []Op{st(1, 3), st(2, 4), st(1, 4), {K: "R"}, {K: "R"}, st(2, 3), st(1, 3)}},
 		{NewState: newState, Engine: "memory", Boundary: true, Ops: []Op{st(1, 3), st(2, 4), {K: "G"}, st(1, 4), {K: "U"}, {K: "R"}, st(2, 3)}},
+		// failed store of 8192 (first block of a window), revert of 8191, store, restart
+		{NewState: newState, Engine: "memory", Boundary: true, Ops: []Op{st(2, 3), st(2, 4), st(1, 3), {K: "R"}, st(2, 4), {K: "U"}, st(2, 4)}},
 	}
 }
